@@ -18,7 +18,7 @@ func init() {
 			"(4) the accept loop hands a connection to the manager only under ConnCount() < maxConn and otherwise closes it; every accepted connection goes to exactly one of the two; (5) loopSend dequeues with PopAnyway and writes each item to the connection before the next dequeue; Session.Close only closes the send queue (so queued bytes are flushed before the connection closes). " +
 			"NOT decided: termination of both goroutines and byte delivery under every order of faults (needs the peer and the OS); the accept race between ConnCount() and Inc of concurrent accepts (single accept loop assumed).",
 		Assumptions: []string{"one accept loop per manager", "sync.Once, q.Q (C12) contracts"},
-		Floors:      map[string]int{"C16.exit-always": 2, "C16.exit-effects": 1, "C16.count-writers": 2, "C16.accept-guard": 1, "C16.flush": 3},
+		Floors:      map[string]int{"C16.exit-always": 2, "C16.exit-effects": 1, "C16.count-writers": 4, "C16.accept-guard": 1, "C16.flush": 3},
 		Run:         runC16,
 	})
 }
@@ -311,6 +311,72 @@ func runC16(c *Ctx) {
 		}
 		if ok && n > 0 {
 			c.holds("C16.count-writers", cons, fn.Pos(), "Inc inside startOnce.Do, synchronously, before both go statements")
+		}
+	}
+
+	// (3b) the reply-style sibling (Echo): the same counting discipline on EchoMgr.count — counted once, inside
+	// startOnce.Do, synchronously when the manager accepts the connection and before the handler goroutine starts;
+	// given back by ReleaseRef only
+	if ecount, eonce := c.mustField(rel, "EchoMgr", "count"), c.mustField(rel, "Echo", "startOnce"); ecount != nil && eonce != nil {
+		incs, decs, others := 0, 0, 0
+		var decFn string
+		for _, f := range c.funcsOf(rel) {
+			for _, b := range f.Blocks {
+				for _, in := range b.Instrs {
+					call, ok := in.(*ssa.Call)
+					if !ok || call.Call.StaticCallee() == nil || len(call.Call.Args) == 0 {
+						continue
+					}
+					fa, ok := call.Call.Args[0].(*ssa.FieldAddr)
+					if !ok || !sameField(fieldVar(fa.X.Type(), fa.Field), ecount) {
+						continue
+					}
+					switch call.Call.StaticCallee().Name() {
+					case "Load", "String":
+					case "Inc":
+						incs++
+					case "Dec":
+						decs++
+						decFn = f.Name()
+					default:
+						others++
+					}
+				}
+			}
+		}
+		c.check(incs == 1 && decs == 1 && others == 0 && decFn == "ReleaseRef", "C16.count-writers", "EchoMgr.count", ecount.Pos(), "one Inc (Start) and one Dec (ReleaseRef)", fmt.Sprintf("the echo connection counter has %d Inc, %d Dec (in %s) and %d other writers: exactly one Inc at start and one Dec in ReleaseRef keep it balanced", incs, decs, decFn, others))
+		if fn := c.mustFn(rel, "(*EchoMgr).Do"); fn != nil {
+			cons := "(*stcp.EchoMgr).Do"
+			traces, _ := c.Trace(fn, cfg)
+			ok, n := true, 0
+			for _, t := range traces {
+				if t.End != EndReturn {
+					continue
+				}
+				n++
+				onceAt, onceDepth, incAt, gos := -1, 0, -1, 0
+				for i, e := range t.Events {
+					if isOnceDo(e, eonce) {
+						onceAt, onceDepth = i, e.Depth
+					}
+					if e.Kind == EvCall && len(e.Args) > 0 && strings.HasSuffix(e.callName(), ".Int32).Inc") && e.Args[0].isFieldAddrOf(ecount) {
+						incAt = i
+						if !(onceAt >= 0 && e.Depth > onceDepth) {
+							ok = false
+						}
+					}
+					if e.Kind == EvGo {
+						gos++
+						if incAt < 0 {
+							ok = false
+						}
+					}
+				}
+				if incAt < 0 || gos != 1 {
+					ok = false
+				}
+			}
+			c.check(ok && n > 0, "C16.count-writers", cons, fn.Pos(), "Inc inside startOnce.Do, synchronously, before the handler goroutine", "an echo connection is not counted exactly once, synchronously on accept and before its handler goroutine starts: the accept loop's maximum can be exceeded or the count never returns")
 		}
 	}
 
